@@ -336,12 +336,17 @@ VIEW_METHODS = {'reshape', 'view', 'squeeze', 'transpose', 'swapaxes', 'ravel', 
                 '__getitem__', 'values', 'items', 'keys', 'iterall', 'elements', 'data_element', 'group_dataset'}
 VIEW_FUNCS = {'np.asarray', 'np.asanyarray', 'np.ascontiguousarray', 'np.asfortranarray', 'np.squeeze', 'np.moveaxis',
               'np.transpose', 'np.reshape', 'np.atleast_1d', 'np.atleast_2d', 'np.atleast_3d', 'np.broadcast_to',
-              'np.expand_dims', 'np.swapaxes', 'np.ravel', 'getattr', 'iter', 'next', 'enumerate', 'zip', 'reversed'}
+              'np.expand_dims', 'np.swapaxes', 'np.ravel', 'getattr', 'iter', 'next', 'enumerate', 'zip', 'reversed',
+              'np.frombuffer', 'memoryview', 'np.lib.stride_tricks.as_strided', 'np.lib.stride_tricks.sliding_window_view',
+              'np.flip', 'np.flipud', 'np.fliplr', 'np.rot90', 'np.diagonal', 'np.split', 'np.array_split', 'np.nditer',
+              'np.ndindex', 'np.real', 'np.imag', 'np.rollaxis', 'np.atleast_1d'}
 MUTATORS = {'append', 'extend', 'insert', 'add', 'add_new', 'pop', 'remove', 'clear', 'sort', 'reverse', 'update', 'fill',
             'itemset', 'put', 'resize', 'setflags', '__setitem__', '__delitem__', '__setattr__', '__delattr__', 'popitem',
             'decompress', 'compress', 'convert_pixel_data', 'walk', 'remove_private_tags', 'ensure_file_meta',
             'fix_meta_info', 'update_raw_element', 'set_pixel_data'}
-MUTATOR_FUNCS = {'setattr', 'delattr', 'np.copyto', 'np.put', 'np.place', 'np.putmask'}
+MUTATOR_FUNCS = {'setattr', 'delattr', 'np.copyto', 'np.put', 'np.place', 'np.putmask', 'np.put_along_axis', 'np.fill_diagonal',
+                 'random.shuffle', 'np.random.shuffle', 'heapq.heappush', 'heapq.heapify', 'bisect.insort'}
+COPY_FLAG_FUNCS = {'np.array', 'np.asarray', 'np.asanyarray', 'np.astype', 'np.reshape', 'np.nan_to_num'}
 ITER_FUNCS = {'iter', 'next', 'enumerate', 'zip', 'reversed'}
 ITEM_METHODS = {'get', 'setdefault', '__getitem__', 'values', 'items', 'keys', 'iterall', 'elements', 'data_element', 'group_dataset',
                 'pop'}
@@ -628,6 +633,17 @@ class _Alias:
                 vals.append(e)
             if fname in ('deepcopy', 'copy.deepcopy'):
                 return pre, FRESH
+            kwpos = {k.arg: len(args) + i for i, k in enumerate(node.keywords) if k.arg}
+
+            def kwconst(name, value):
+                ks = [k for k in node.keywords if k.arg == name]
+                return bool(ks) and isinstance(ks[0].value, ast.Constant) and ks[0].value.value is value
+            if 'out' in kwpos and not _is_fresh(vals[kwpos['out']]):
+                # numpy `f(..., out=x)` / `x.max(out=y)`: the result is written into that object, and is that object
+                pre.append(('write', vals[kwpos['out']]))
+                return pre, ('view', SAME, vals[kwpos['out']])
+            if fname in COPY_FLAG_FUNCS and args and kwconst('copy', False):
+                return pre, ('view', SAME, vals[0])         # np.array(x, copy=False): x itself when nothing has to change
             if fname in ('cast', 'typing.cast') and len(args) == 2:
                 return pre, vals[1]
             if fname in VIEW_FUNCS and args:
@@ -662,7 +678,15 @@ class _Alias:
                                 pre.append(('link', holder, lab, ('view', ITEM, e)))
                     return pre, FRESH
                 if node.func.attr in VIEW_METHODS:
+                    if kwconst('inplace', True) or (node.func.attr == 'byteswap' and args and isinstance(args[0], ast.Constant)
+                                                    and args[0].value is True):
+                        pre.append(('write', recv))         # `a.byteswap(inplace=True)`
                     return pre, ('view', ITEM if node.func.attr in ITEM_METHODS else SAME, recv)
+                if kwconst('inplace', True) and not _is_fresh(recv):
+                    pre.append(('write', recv))             # an external method asked to work in place
+                    return pre, ('view', SAME, recv)
+                if kwconst('copy', False) and not _is_fresh(recv):
+                    return pre, ('view', SAME, recv)        # `a.astype(t, copy=False)`: a itself when nothing has to change
             if any(not _is_fresh(e) for e in vals):
                 self.external.add(fname.split('(')[0][-40:])       # not a highdicom function: assumed not to write its arguments
             last = fname.split('.')[-1]
